@@ -906,6 +906,30 @@ fn corpus_worlds() -> Vec<World> {
     queries: vec![json!({"type":"term","field":"t","value":"rust"})],
     class: "corpus_fast_only",
   });
+  // a NESTED property that is nullable, indexed and fast but not stored: its data cannot be rebuilt
+  // from the stored documents, so compaction has to refuse (the refusal must cover nested paths,
+  // not only top-level fields)
+  ws.push(World {
+    props: vec![
+      txt("t"),
+      Prop::Obj {
+        name: "c".into(),
+        nullable: true,
+        fields: vec![
+          kwp("a", true),
+          Prop::Leaf { name: "b".into(), kind: Kind::Kw, nullable: true, stored: false, indexed: true, fast: true },
+        ],
+      },
+    ],
+    batches: adds(vec![
+      json!({"t":"rust","c":[{"a":"p","b":"x"},{"a":"q"}]}),
+      json!({"t":"fast","c":{"a":"p","b":"y"}}),
+    ]),
+    reopen_after: vec![false; 2],
+    filters: vec![nest("c", eq("b", "x")), nest("c", eq("a", "p"))],
+    queries: vec![json!({"type":"term","field":"t","value":"rust"})],
+    class: "corpus_nested_unstored",
+  });
   ws
 }
 
